@@ -67,3 +67,48 @@ int_accessor!(c05_i16, i16, i16);
 int_accessor!(c05_i32, i32, i32);
 // @harness name=c05_i64 props=C05,C20 kind=complete
 int_accessor!(c05_i64, i64, i64);
+
+// ---- Int covers exactly [-2^64, 2^64-1]; conversions to and from the primitive integers are exact or fail (C05).
+// In-crate module: `Int::pos` / `Int::neg` give every (sign, magnitude) pair; the mathematical value is
+// m (non-negative) or -1 - m (negative).
+use crate::data::{Int, MAX_INT, MIN_INT};
+
+fn any_int() -> (Int, i128) {
+    let m: u64 = kani::any();
+    if kani::any() { (Int::pos(m), m as i128) } else { (Int::neg(m), -1 - m as i128) }
+}
+
+// @harness name=c05_int_to_prims props=C05 kind=complete
+#[kani::proof]
+fn c05_int_to_prims() {
+    let (x, v) = any_int();
+    assert!(i128::from(x) == v);                                           // the value of an Int
+    assert!(i128::from(MAX_INT) == (1i128 << 64) - 1 && i128::from(MIN_INT) == -(1i128 << 64));
+    macro_rules! to { ($t:ty) => {
+        match <$t>::try_from(x) {
+            Ok(y) => assert!(y as i128 == v),                              // exact
+            Err(_) => assert!(v < <$t>::MIN as i128 || v > <$t>::MAX as i128)   // or it does not fit
+        }
+    } }
+    to!(u8); to!(u16); to!(u32); to!(u64); to!(i8); to!(i16); to!(i32); to!(i64);
+    match u128::try_from(x) { Ok(y) => assert!(v >= 0 && y == v as u128), Err(_) => assert!(v < 0) }
+    kani::cover!(v == -(1i128 << 64));
+}
+
+// @harness name=c05_prims_to_int props=C05 kind=complete
+#[kani::proof]
+fn c05_prims_to_int() {
+    macro_rules! from { ($t:ty) => { let a: $t = kani::any(); assert!(i128::from(Int::from(a)) == a as i128); } }
+    from!(u8); from!(u16); from!(u32); from!(u64); from!(i8); from!(i16); from!(i32); from!(i64);
+    let w: i128 = kani::any();
+    match Int::try_from(w) {
+        Ok(x) => { assert!(i128::from(x) == w); assert!(-(1i128 << 64) <= w && w < (1i128 << 64)) }
+        Err(_) => assert!(w < -(1i128 << 64) || w >= (1i128 << 64))
+    }
+    let u: u128 = kani::any();
+    match Int::try_from(u) {
+        Ok(x) => { assert!(u < (1u128 << 64) && i128::from(x) == u as i128) }
+        Err(_) => assert!(u >= (1u128 << 64))
+    }
+    kani::cover!(w == -(1i128 << 64));
+}
